@@ -157,8 +157,14 @@ func (p *Pipe) Read(b []byte) (int, error) {
 	p.reads++
 	if p.eofWith >= 0 && p.given >= p.eofWith {
 		// io.Reader permits returning the data and io.EOF from one call
-		p.failAt, p.failErr = p.given, io.EOF
-		return n, io.EOF
+		// (with the error installed by FailAfter if that one means "end of stream" too: a
+		// wrapped io.EOF)
+		e := error(io.EOF)
+		if p.failErr != nil && errors.Is(p.failErr, io.EOF) {
+			e = p.failErr
+		}
+		p.failAt, p.failErr = p.given, e
+		return n, e
 	}
 	return n, nil
 }
